@@ -281,13 +281,52 @@ fn frame_bound(dump: &Minidump<'_, Vec<u8>>, state: &ProcessState) -> (usize, u6
     (worst.0, worst.1, ok)
 }
 
+/// `share=1` (round 5, second pass): every entry of the thread list cites the FILE BYTES of the first entry — its stack
+/// descriptor (start_of_memory_range, data_size, rva) and its context location are copied into all other entries. A
+/// MINIDUMP_LOCATION_DESCRIPTOR is a reference into the file and nothing in the readers forbids two descriptors from
+/// naming the same bytes, so T threads can be walked over one S-byte stack that the file holds once.
+/// Returns the patched dump and (threads, data_size of the shared stack).
+fn share_patch(spec: &Spec, mut bytes: Vec<u8>) -> (Vec<u8>, u64, u64) {
+    if spec.extra.get("share").map(|v| v != "1").unwrap_or(true) || bytes.len() < 32 {
+        return (bytes, 0, 0);
+    }
+    let rd = |b: &[u8], o: usize| -> usize {
+        if o + 4 <= b.len() {
+            u32::from_le_bytes([b[o], b[o + 1], b[o + 2], b[o + 3]]) as usize
+        } else {
+            0
+        }
+    };
+    let (count, dir) = (rd(&bytes, 8), rd(&bytes, 12));
+    for i in 0..count.min(64) {
+        let o = dir + 12 * i;
+        if rd(&bytes, o) == 3 {
+            let (size, rva) = (rd(&bytes, o + 4), rd(&bytes, o + 8));
+            let n = rd(&bytes, rva);
+            if n == 0 || 4 + 48 * n > size || rva + size > bytes.len() {
+                return (bytes, 0, 0);
+            }
+            let first: Vec<u8> = bytes[rva + 4 + 24..rva + 4 + 48].to_vec();
+            for k in 1..n {
+                let e = rva + 4 + 48 * k;
+                bytes[e + 24..e + 48].copy_from_slice(&first);
+            }
+            let ssz = u32::from_le_bytes([first[8], first[9], first[10], first[11]]) as u64;
+            return (bytes, n as u64, ssz);
+        }
+    }
+    (bytes, 0, 0)
+}
+
 fn run_whole(spec: &Spec) -> String {
     let t0 = Instant::now();
     PEAK.store(CUR.load(Ordering::Relaxed), Ordering::Relaxed);
     let base = CUR.load(Ordering::Relaxed);
-    let bytes = build_dump(spec);
+    let (bytes, sh_threads, sh_bytes) = share_patch(spec, build_dump(spec));
     let insz = bytes.len() + spec.syms.iter().map(|s| s.len()).sum::<usize>();
-    arm_cpu_budget(insz);
+    // the CPU watchdog is armed with the budget the oracle judges: linear in the input size, where a descriptor that is cited
+    // by T thread-list entries counts T times (share=1: see props/c03.py, F-C03h)
+    arm_cpu_budget(insz + (sh_threads * sh_bytes) as usize);
     let (cpu0, al0) = (cpu_ms(), NALLOC.load(Ordering::Relaxed));
     SYM_CALLS.store(0, Ordering::Relaxed);
     let dump = match Minidump::read(bytes) {
@@ -354,7 +393,7 @@ fn hexs(s: &str) -> String {
 }
 
 fn state_of(spec: &Spec) -> ProcessState {
-    let dump = Minidump::read(build_dump(spec)).expect("read");
+    let dump = Minidump::read(share_patch(spec, build_dump(spec)).0).expect("read");
     match process(&dump, &HashMap::new(), 0, None) {
         Outcome::Ok(s) => s,
         Outcome::Err(e) => panic!("process error {}", e),
